@@ -426,7 +426,7 @@ func verifRunC20(c *verifsim.Ctx) {
 
 	scenario := "intact"
 	if faults {
-		scenario = []string{"intact", "truncate", "io-error", "stall", "bit-flip", "garbage", "small-limits", "type-body-limit", "arbitrary", "eof-with-data", "truncate", "io-error", "hostile-header-values", "hostile-header-values", "header-over-limit"}[c.Draw("scenario", 15)]
+		scenario = []string{"intact", "truncate", "io-error", "stall", "bit-flip", "garbage", "small-limits", "type-body-limit", "arbitrary", "eof-with-data", "truncate", "io-error", "hostile-header-values", "hostile-header-values", "header-over-limit", "malformed-nesting", "truncate-everywhere"}[c.Draw("scenario", 17)]
 	}
 	data := stream
 	rd := verifNewReader(c, nil)
@@ -438,6 +438,22 @@ func verifRunC20(c *verifsim.Ctx) {
 	var typeLimit map[*asserts.AssertionType]int
 	hostileAt, hostileHow := -1, ""
 	switch scenario {
+	case "malformed-nesting":
+		// hand-shaped broken nested header lines inside an otherwise
+		// well-formed assertion; judged like a hostile header value
+		scenario = "hostile-header-values"
+		hostileAt = c.Draw("hostile-which", n)
+		var tampered []byte
+		tampered, hostileHow = w.malformedNesting(stream[starts[hostileAt] : sigStarts[hostileAt]-2])
+		data = append(append(append([]byte(nil), stream[:starts[hostileAt]]...), tampered...), stream[sigStarts[hostileAt]-2:]...)
+		c.Logf("malformed nesting in #%d: %s", hostileAt, hostileHow)
+		w.fault("malformed-nested-header-lines")
+	case "truncate-everywhere":
+		// every prefix of one assertion (chosen for its nested headers)
+		// through both decoders; the stream itself is then read intact
+		w.truncateEverywhere(sent, labels)
+		scenario = "intact"
+		w.fault("truncation-at-every-offset")
 	case "hostile-header-values":
 		hostileAt = c.Draw("hostile-which", n)
 		var tampered []byte
@@ -859,7 +875,7 @@ func (w *verifC20) genArbitrary(stream []byte, sigStarts []int) []byte {
 	}
 }
 
-var verifProbesC20 = []string{"probe:headers-between-64k-and-the-limit", "probe:headers-end-at-window-boundary", "probe:hostile-header-value-accepted-by-decode", "probe:hostile-header-value-accepted-by-stream-decoder", "probe:decoder-given-a-bufio-reader", "probe:damaged-input-accepted-by-decode", "probe:damaged-input-rejected-by-decode", "probe:damaged-stream-still-yields-assertions", "probe:io-error-surfaced", "probe:long-body", "probe:long-header-value", "probe:nested-container", "probe:oversized-assertion-refused", "probe:reader-recovered-after-long-stall", "probe:several-assertions-streamed", "probe:truncated-signature-handed-out", "probe:truncation-reported"}
+var verifProbesC20 = []string{"probe:every-prefix-of-a-nested-assertion-decoded", "probe:headers-between-64k-and-the-limit", "probe:headers-end-at-window-boundary", "probe:hostile-header-value-accepted-by-decode", "probe:hostile-header-value-accepted-by-stream-decoder", "probe:decoder-given-a-bufio-reader", "probe:damaged-input-accepted-by-decode", "probe:damaged-input-rejected-by-decode", "probe:damaged-stream-still-yields-assertions", "probe:io-error-surfaced", "probe:long-body", "probe:long-header-value", "probe:nested-container", "probe:oversized-assertion-refused", "probe:reader-recovered-after-long-stall", "probe:several-assertions-streamed", "probe:truncated-signature-handed-out", "probe:truncation-reported"}
 
 var verifHostileInts = []string{"-1", "-1000000", "-9223372036854775808", "9223372036854775807", "9223372036854775808",
 	"99999999999999999999", "2097152", "2097153", "+5", " 5", "5 ", "0x10", "1e3", "five", "", "٣", "0", "00", "-0", "1_000", "4294967296", "-2147483649"}
@@ -924,4 +940,107 @@ func (w *verifC20) hostileHeaders(content []byte, bodyLen int) ([]byte, string) 
 		how = fmt.Sprintf("duplicate header %q", verifShort(dup))
 	}
 	return []byte(strings.Join(lines, "\n") + rest), how
+}
+
+var verifNestFragments = []string{
+	"foo:\n  ", "foo:\n  -", "foo:\n  -\n    ", "foo:\n  -\n      ", "foo:\n  k:\n    ", "foo:\n    ", "foo:\n  - a\n  ",
+	"foo:\n  k: v\n  ", "foo:\n  -\n    -\n      ", "foo:\n  k:\n    -\n      ", "foo:\n  -\n    k:\n      ", "foo:", "foo:\n ",
+	"foo:\n  -\n    k:\n        ", "foo:\n  k:\n      text\n    ", "foo:\n   x", "foo:\n  -x", "foo:\n  - \n  -", "foo:\n\tx",
+}
+
+// malformedNesting inserts one broken nested header (a line that is exactly
+// the nesting prefix, the prefix plus "-", ...) into the header block of a
+// well-formed assertion, in the middle or as its very last header.
+func (w *verifC20) malformedNesting(content []byte) ([]byte, string) {
+	c := w.c
+	hl := verifHeadLen(content)
+	lines := strings.Split(string(content[:hl]), "\n")
+	rest := string(content[hl:])
+	frag := verifNestFragments[c.Draw("nest-fragment", len(verifNestFragments))]
+	var tops []int
+	for i, l := range lines {
+		if l != "" && l[0] != ' ' {
+			tops = append(tops, i)
+		}
+	}
+	at := len(lines) // after the last header: the fragment is followed by the blank line
+	if c.Chance("nest-in-the-middle", 1, 2) {
+		at = tops[c.Draw("nest-at", len(tops))]
+	}
+	nl := append(append(append([]string{}, lines[:at]...), frag), lines[at:]...)
+	return []byte(strings.Join(nl, "\n") + rest), fmt.Sprintf("%q before header line %d of %d", frag, at, len(lines))
+}
+
+// truncateEverywhere gives every proper prefix of one encoding to
+// asserts.Decode and to the stream decoder. Each must return an error, or -
+// only once the cut lies inside the signature - the sent content with a
+// prefix of the signature; a panic is a violation (C20/panic) that names
+// the offset.
+func (w *verifC20) truncateEverywhere(sent []asserts.Assertion, labels []string) {
+	c := w.c
+	// prefer an assertion with nested headers and a moderate size
+	k, bestScore := 0, -1
+	for i, a := range sent {
+		content, _ := a.Signature()
+		hl := verifHeadLen(content)
+		if len(asserts.Encode(a)) > 3000 {
+			continue
+		}
+		score := strings.Count(string(content[:hl]), "\n  ")
+		if score > bestScore {
+			k, bestScore = i, score
+		}
+	}
+	a := sent[k]
+	enc := asserts.Encode(a)
+	if len(enc) > 3000 {
+		enc = enc[:3000]
+	}
+	content, sig := a.Signature()
+	sigStart := len(content) + 2
+	accepted := 0
+	try := func(off int, which string, f func() (asserts.Assertion, error)) bool {
+		var x asserts.Assertion
+		var err error
+		panicked := func() (p interface{}) {
+			defer func() { p = recover() }()
+			x, err = f()
+			return nil
+		}()
+		if panicked != nil {
+			if c.Active("C20") {
+				c.Violate("C20/panic", "%s panics on the first %d of %d bytes of %s (%q...): %v", which, off, len(enc), labels[k], verifTail(enc[:off], 24), panicked)
+			}
+			return false
+		}
+		if err != nil {
+			return true
+		}
+		accepted++
+		xc, xs := x.Signature()
+		if off <= sigStart || !bytes.Equal(xc, content) || !bytes.HasPrefix(sig, xs) {
+			w.violate("truncated-input-accepted", "%s accepts the first %d of %d bytes of %s (signature starts at %d) and returns different signed content or a signature that is not a prefix of the sent one", which, off, len(enc), labels[k], sigStart)
+			return false
+		}
+		return true
+	}
+	for off := 0; off < len(enc); off++ {
+		cut := enc[:off]
+		if !try(off, "asserts.Decode", func() (asserts.Assertion, error) { return asserts.Decode(cut) }) {
+			return
+		}
+		if !try(off, "the stream decoder", func() (asserts.Assertion, error) { return asserts.NewDecoder(bytes.NewReader(cut)).Decode() }) {
+			return
+		}
+	}
+	c.Logf("every prefix of %s (%d bytes, %d nested lines) decoded: %d accepted with a signature prefix", labels[k], len(enc), bestScore, accepted)
+	c.Count("probe:every-prefix-of-a-nested-assertion-decoded")
+	c.Add("prefixes-decoded", int64(2*len(enc)))
+}
+
+func verifTail(b []byte, n int) string {
+	if len(b) > n {
+		b = b[len(b)-n:]
+	}
+	return string(b)
 }
